@@ -81,7 +81,7 @@ theorem nextLexeme_shift (p b : Buf) : ∀ (fuel pos : Nat) (nested : Int),
     · simp only [Bool.not_eq_true] at h92; simp only [h92, Bool.false_eq_true, if_false]
       by_cases h40 : (c == 40) = true
       · simp only [h40, if_true]
-        by_cases hn : nested + 1 > 2147483647
+        by_cases hn : nested + 1 > 9223372036854775807
         · simp only [hn, if_true]; rfl
         · simp only [hn, if_false]; rfl
       · simp only [Bool.not_eq_true] at h40; simp only [h40, Bool.false_eq_true, if_false]
